@@ -92,7 +92,7 @@ def astOracleOf (j : Json) : DocTransAst.Oracle :=
     paramTyp := fun p n => match ptys.getObjVal? (key p) with
       | .ok t => (match t.getObjVal? n with | .ok (.str s) => some s | _ => none)
       | _ => none,
-    returnTyp := fun p => match rtys.getObjVal? (key p) with | .ok (.str s) => some s | _ => none,
+    returnTyp := fun p => match rtys.getObjVal? (key p) with | .ok (.str s) => some (some s) | .ok .null => some none | _ => none,
     annTyp := fun _ _ a => a,
     assignTyp := fun _ _ => none }
 
